@@ -957,7 +957,6 @@ run_churn(void *argp)
 	VH_OK(nng_listen(PL[1].s, "inproc://c06d", NULL, 0));
 	vs_settle();
 	pthread_t t1, t2;
-	vs_unlock_points = 1;
 	vs_window(1);
 	pthread_create(&t1, NULL, churn_dial, NULL);
 	if (ca->how == 1)
